@@ -26,7 +26,7 @@ for P in props:
                                    'demo_without_patch_exit': (re.search(r'demo without patch: exit (\d+)', confirm) or [None, None])[1]}}
         # detection: apply to /repo, run the quick check of the property, undo
         if '--no-drill' not in sys.argv:
-            p = subprocess.run([os.path.join(V, 'tools', 'drill.sh'), os.path.join(dst, 'patch.diff'), P, 'quick', '400'], capture_output=True)
+            p = subprocess.run([os.path.join(V, 'tools', os.environ.get('DRILL', 'drill.sh')), os.path.join(dst, 'patch.diff'), P, 'quick', '400'], capture_output=True)
             txt = p.stdout.decode(errors='replace')
             vio = [l for l in txt.split('\n') if l.startswith('VIOLATION')]
             summ = [l for l in txt.split('\n') if l.startswith(P + ' tier=')]
